@@ -161,16 +161,23 @@ def select_start_nodes(td, env, num_starts):
             % num_loc
             + 1
         )
-        if env.name == "op":
+        if env.name in ["op", "svrp"]:
             available = td["action_mask"][..., 1:]
             chosen = rearrange(selected - 1, "(n b) -> b n", n=num_starts)
             if not available.gather(1, chosen).all():
-                # for the orienteering problem, we may have some nodes that are not available
+                # for the orienteering problem (maximum length) and the skill VRP (skill of the first
+                # technician), we may have some nodes that are not available
                 # so we need to resample from the distribution of available nodes. Instances with
                 # enough available nodes get distinct ones, only the others are sampled with replacement
                 probs = available.float()
-                enough = probs.sum(-1) >= num_starts
-                selected = torch.multinomial(probs, num_starts, replacement=True)
+                num_available = probs.sum(-1)
+                enough = num_available >= num_starts
+                short = (num_available > 0) & ~enough  # nothing to choose from if no node is available
+                selected = chosen.clone()
+                if short.any():
+                    selected[short] = torch.multinomial(
+                        probs[short], num_starts, replacement=True
+                    )
                 if enough.any():
                     selected[enough] = torch.multinomial(
                         probs[enough], num_starts, replacement=False
